@@ -19,6 +19,30 @@ func init() { register("C12", "exploration", runC12) }
 
 // chunkEncode is ChunkEncoder: the aws-chunked framing of payload cut into the
 // given chunk sizes (cycled), with the final zero-length chunk.
+// chunkEncodeUpper is chunkEncode with the sizes in upper-case hexadecimal.
+func chunkEncodeUpper(payload []byte, sizes []int) []byte {
+	var buf bytes.Buffer
+	sigHex := strings.Repeat("0123456789ABCDEF", 4)
+	off, i := 0, 0
+	for off < len(payload) {
+		sz := sizes[i%len(sizes)]
+		i++
+		if sz <= 0 {
+			sz = 1
+		}
+		end := off + sz
+		if end > len(payload) {
+			end = len(payload)
+		}
+		fmt.Fprintf(&buf, "%X;chunk-signature=%s\r\n", end-off, sigHex)
+		buf.Write(payload[off:end])
+		buf.WriteString("\r\n")
+		off = end
+	}
+	buf.WriteString("0;chunk-signature=" + sigHex + "\r\n\r\n")
+	return buf.Bytes()
+}
+
 func chunkEncode(payload []byte, sizes []int) []byte {
 	var buf bytes.Buffer
 	sigHex := strings.Repeat("0123456789abcdef", 4)
@@ -167,6 +191,11 @@ func runC12(c *Ctx) {
 		upload := func(payload []byte, chunks []int, sc fragSchedule, cuts []int, what string) {
 			caseNo++
 			stream := chunkEncode(payload, chunks)
+			if caseNo%8 == 3 {
+				// hexadecimal is hexadecimal in either letter case
+				stream = chunkEncodeUpper(payload, chunks)
+				r.Count("streams_with_upper_case_hex", 1)
+			}
 			if cuts == nil {
 				cuts = sc.cuts(stream, rng)
 			}
